@@ -139,7 +139,9 @@ def run(rep: Report, prog: Program, tier: str) -> None:
         txt = [unparse(s) for s in first_if.body]
         sends = any("self._send_chunk(self._forward_tsn_chunk)" in t for t in txt)
         clears = any(t == "self._forward_tsn_chunk = None" for t in txt)
-        arms = any("_t3_start" in t or "_t3_restart" in t for t in txt)
+        from .common import timer_armers
+        armers3 = timer_armers(prog, "3")
+        arms = any(isinstance(c, ast.Call) and unparse(c.func) in armers3 for st_ in first_if.body for c in ast.walk(st_))
         ok = sends and clears and arms
     if ok:
         rep.ok("C06-FIRST", "_transmit: pending FORWARD-TSN is sent, cleared and T3 armed before any DATA chunk", sample=unparse(first_if.test))
